@@ -26,9 +26,20 @@ def d1(ctx, prog):
         raise AnalysisError('matcher _initialize not found')
     body = [s for s in init.node.body if not (isinstance(s, ast.Expr) and isinstance(s.value, ast.Constant))]
     first = body[0] if body else None
-    good = isinstance(first, ast.If) and norm(first.test).replace(' ', '') == 'notself.is_build' and any(isinstance(b, ast.Raise) for b in first.body)
-    ctx.check(good, 'C14-D1', f'{init.key}::refuse before build', 'the matcher\'s _initialize does not start by refusing (raise) when is_build is false: '
-              'matching could run on missing/None templates', 'first statement refuses matching before build', init.where())
+    from .c15 import ceval, Undecidable
+    key_ = f'{init.key}::refuse before build'
+    if isinstance(first, ast.If) and any(isinstance(b, ast.Raise) for b in first.body) and astutil.self_attrs_read(first.test) == {'is_build'}:
+        try:
+            t_false, t_true = bool(ceval(first.test, {'self.is_build': False})), bool(ceval(first.test, {'self.is_build': True}))
+            ctx.check(t_false and not t_true, 'C14-D1', key_, f'`{norm(first.test)}` does not refuse exactly when is_build is false', 'first statement refuses matching before build', init.where())
+        except Undecidable as e_:
+            ctx.undecided('C14-D1', key_, f'refusal test not evaluable: {e_}', init.where())
+    else:
+        raises_on_flag = [n_ for n_ in ast.walk(init.node) if isinstance(n_, ast.If) and any(isinstance(b, ast.Raise) for b in n_.body) and 'is_build' in astutil.self_attrs_read(n_.test)]
+        if raises_on_flag:
+            ctx.fail('C14-D1', key_, 'the matcher\'s _initialize tests is_build only after other statements: the profile is read (or state is set up) before the refusal', init.where())
+        else:
+            ctx.fail('C14-D1', key_, 'the matcher\'s _initialize never refuses (raise) when is_build is false: matching could run on missing/None templates', init.where())
     a = prog.need_class(ATPL, 'BaseTemplateAttack')
     build = a.methods.get('build')
     if build is None:
